@@ -83,9 +83,10 @@ def point_kinds(k, quick):
     return ks
 
 
-def point_src(kind, k):
+def point_src(kind, k, vector=False):
     if kind == "const":
-        return repr(1.3 - 0.2 * k)
+        # vector variant: a constant ARRAY point, so that the inner function still maps (2,) -> (2,) element-wise
+        return repr(1.3 - 0.2 * k) if not vector else "np.array([%r, %r])" % (1.3 - 0.2 * k, 1.3 - 0.2 * k + 0.21)
     if kind == "own":
         return "x%d" % k
     if kind == "outer0":
@@ -93,9 +94,9 @@ def point_src(kind, k):
     return " * ".join("x%d" % i for i in range(k + 1)) + " * x%d" % k
 
 
-def point_sym(kind, k):
+def point_sym(kind, k, comp=0):
     if kind == "const":
-        return S.Const(1.3 - 0.2 * k)
+        return S.Const(1.3 - 0.2 * k + 0.21 * comp)
     if kind == "own":
         return S.Var("x%d" % k)
     if kind == "outer0":
@@ -128,10 +129,9 @@ def build(ch, tier_quick, seed):
     xs = base[:1] if reduced else base[:2]
     x0 = ch.choose("x0", xs) + 0.013 * (seed % 17)
     # the same term on a (2,) array: every op is element-wise, so each component must equal the scalar term at that value
-    # (only when every evaluation point is itself built from the variables: with a scalar constant point the inner function maps
-    # a scalar to a vector and elementwise_grad would sum over its components)
+    # (a constant evaluation point becomes a constant (2,) array; component i then uses its i-th entry)
     # a result that does not depend on x0 at all is a scalar zero of the (scalar) output's space: compared by broadcasting
-    vector = var is None and all(p != "const" for p in pts) and ch.flag("vector_valued")
+    vector = var is None and ch.flag("vector_valued")
     if vector:
         ops = [("egrad" if m == "rev" else "deriv") for m in modes]
     return dict(depth=depth, modes=modes, ops=ops, S=Ss, pts=pts, orders=orders, x0=x0, vector=vector)
@@ -144,7 +144,7 @@ def render(t):
         fac = factor_src(t["S"][k], k)
         if k == d - 1:
             return fac
-        inner = "%s(lambda x%d: %s)(%s)" % (t["ops"][k + 1], k + 1, body(k + 1), point_src(t["pts"][k], k))
+        inner = "%s(lambda x%d: %s)(%s)" % (t["ops"][k + 1], k + 1, body(k + 1), point_src(t["pts"][k], k, bool(t.get("vector"))))
         return "(%s) * %s" % (fac, inner) if t["orders"][k] == 0 else "%s * (%s)" % (inner, fac)
 
     arg = repr(t["x0"]) if not t.get("vector") else "np.array([%r, %r])" % (t["x0"], t["x0"] + 0.37)
@@ -154,17 +154,16 @@ def render(t):
 def reference(t):
     d = t["depth"]
 
-    def body(k):
+    def body(k, comp):
         fac = factor_sym(t["S"][k], k)
         if k == d - 1:
             return fac
-        inner = body(k + 1).d("x%d" % (k + 1)).sub("x%d" % (k + 1), point_sym(t["pts"][k], k))
+        inner = body(k + 1, comp).d("x%d" % (k + 1)).sub("x%d" % (k + 1), point_sym(t["pts"][k], k, comp))
         return fac * inner if t["orders"][k] == 0 else inner * fac
 
-    e = body(0).d("x0")
     if t.get("vector"):
-        return [e.ev({"x0": t["x0"]}), e.ev({"x0": t["x0"] + 0.37})]
-    return e.ev({"x0": t["x0"]})
+        return [body(0, 0).d("x0").ev({"x0": t["x0"]}), body(0, 1).d("x0").ev({"x0": t["x0"] + 0.37})]
+    return body(0, 0).d("x0").ev({"x0": t["x0"]})
 
 
 def harness_factory(quick, seed):
